@@ -370,6 +370,8 @@ def run_check(prop, tier, repo, jobs, seed):
         "refuted_reproduced_keys": sorted(reproduced),
         "refuted_spurious": spurious,
         "inconclusive": int(agg.get("inconclusive", 0)),
+        "inconclusive_obligations": [{"harness": r["harness"], "case": r["case"], "label": i.get("label"), "claim": i.get("claim", "")[:200]}
+                                     for r in results for i in r.get("inconclusive", [])][:12],
         "paths": {k: int(agg.get(k, 0)) for k in ("paths", "paths_completed", "paths_infeasible", "paths_unsupported", "paths_out_of_bound", "paths_error")},
         "paths_reaching_assertion_checks": int(agg.get("reached", 0)),
         "branch_feasibility_queries": int(agg.get("branch_queries", 0)),
